@@ -359,7 +359,7 @@ class sptenmat:
         if self.subs.size == 0:
             return sparse.coo_matrix(self.shape)
         return sparse.coo_matrix(
-            (self.vals.transpose()[0], self.subs.transpose()), self.shape
+            (self.vals.transpose()[0], self.subs.transpose()), self.shape, copy=True
         )
 
     def full(self) -> ttb.tenmat:
